@@ -19,7 +19,7 @@ RULE = ("same space as C05 with complementary shells: 237 settings x conforming 
 ASSUMPTIONS = ["shell bounds are kept away from lattice-point values, so the exclusive/inclusive behaviour exactly at a lattice value is not asserted",
                "Laue orbit = orbit under the first nuniq rotations and their negatives (structure verified by C04)"]
 
-SHELLS = {"quick": [(0.0, 0.55), (0.25, 0.66)], "thorough": [(0.0, 0.80), (0.25, 0.66), (0.0, 0.47), (0.37, 0.52)]}
+SHELLS = {"quick": [(0.0, 0.55), (0.25, 0.66), (0.88, 0.95)], "thorough": [(0.0, 0.80), (0.25, 0.66), (0.0, 0.47), (0.37, 0.52), (1.07, 1.14)]}
 
 
 def cases(tier, seed):
